@@ -18,4 +18,4 @@ def run(c):
     c.run_m('h_c10_cache', expect_checks=(1030, 1031, 1032), expect_cover=(1030,), bounds={'a': 'any i64', 'texts': 4, 'id-less sources': 'two different texts in a row'})
     c.run_m('h_c10_assign', expect_checks=(1040,), expect_cover=(1040,), bounds={'value': 'any i64'})
     if c.tier == 'thorough':
-        c.run_kani('h_expr::proofs::k_c10_float', 'h_c10_float', time_cap=1500, bounds={'x': 'any f64', 'y': 'any i64'})
+        c.run_kani('h_expr::proofs::k_c10_float', 'h_c10_float', time_cap=1500, bounds={'x': 'any f64', 'y': 'any i64', 'operators': '+ - <'})
